@@ -21,6 +21,9 @@
 (*   MeshListed(k, idx, haspatt, p, R)  the idx-th output (0-based) of      *)
 (*                                 MeshPatt.of_length(k) / of_length(k, p) *)
 (*   MeshListedEnd(k, haspatt, count)  such a listing run to its end        *)
+(*   BigRank(p, res) / BigUnrank(r, raised, res) / BigUnrankN(r, n, ..)    *)
+(*                                 the same calls on permutations of any   *)
+(*                                 length, ranks as base-10000 numerals    *)
 (* Permutations longer than TMaxLen (up to length 12) are ranked without   *)
 (* enumeration (LRankBySplit, cross-checked in LibSanity_LexRank).         *)
 (***************************************************************************)
@@ -57,6 +60,17 @@ TUnrankN == /\ Ev.op = "UnrankN"
                ELSE Judge(RankInLength(Ev.res) = Ev.r, "UnrankNIsRankInLength")
 TRank == /\ Ev.op = "Rank"
          /\ Judge(RankOf(Ev.p) = Ev.res, "RankIsNumberOfSmaller")
+\* permutations of any length: ranks travel as base-10000 numerals (least significant digit first)
+TBigRank == /\ Ev.op = "BigRank"
+            /\ Judge(PIsPerm(Ev.p) /\ LBigOverallRank(Ev.p) = Ev.res, "RankIsNumberOfSmaller")
+TBigUnrank == /\ Ev.op = "BigUnrank"
+              /\ IF Ev.raised THEN Judge(FALSE, "UnrankTotalOnNaturals")
+                 ELSE IF ~PIsPerm(Ev.res) THEN Judge(FALSE, "UnrankYieldsPermutation")
+                 ELSE Judge(LBigOverallRank(Ev.res) = Ev.r, "UnrankIsInverseOfRank")
+TBigUnrankN == /\ Ev.op = "BigUnrankN"
+               /\ IF Ev.raised THEN Judge(FALSE, "UnrankNTotalOnRange")
+                  ELSE IF ~(PIsPerm(Ev.res) /\ Len(Ev.res) = Ev.n) THEN Judge(FALSE, "UnrankNYieldsLength")
+                  ELSE Judge(LBigRankBySplit(Ev.res) = Ev.r, "UnrankNIsRankInLength")
 TLess == /\ Ev.op = "Less"
          /\ Judge(Ev.lt = PPermLess(Ev.a, Ev.b), "LessIsLengthLex")
 TNextOf == /\ Ev.op = "NextOf"
@@ -121,6 +135,6 @@ TMeshListedEnd == /\ Ev.op = "MeshListedEnd"
                            "MeshOfLengthExactlyOnce")
 TNext == /\ l <= Len(Trace) /\ l' = l + 1
          /\ (TUnrank \/ TUnrankN \/ TRank \/ TLess \/ TNextOf \/ TStd \/ TValid \/ TRead \/ TRoundTrip \/ TMeshRank \/ TMeshUnrank
-             \/ TMeshListed \/ TMeshListedEnd \/ TGenCount)
+             \/ TMeshListed \/ TMeshListedEnd \/ TGenCount \/ TBigRank \/ TBigUnrank \/ TBigUnrankN)
 TraceDone == l = Len(Trace) + 1 => PrintT(ToJson([verdict |-> bad, drift |-> <<>>, n |-> Len(Trace)]))
 =============================================================================
